@@ -23,6 +23,7 @@ import (
 	"chainguard.dev/apko/pkg/build"
 	"chainguard.dev/apko/pkg/build/types"
 	"chainguard.dev/apko/pkg/options"
+	"chainguard.dev/apko/pkg/passwd"
 	"chainguard.dev/apko/pkg/tarfs"
 	"verifharness/gal"
 )
@@ -351,6 +352,57 @@ func galGroups(gs []gent, ok bool) string {
 	return gal.Opt(ok, gal.List(it))
 }
 
+// implUsers / implGroups: the repository's own readers on a file of the tree;
+// "None" when there is no regular file (not compared), "(Some None)" on error.
+func implUsers(fsys apkfs.FullFS, p string) string {
+	if fi, err := fsys.Stat(p); err != nil || !fi.Mode().IsRegular() {
+		return "None"
+	}
+	var out []uent
+	ok := true
+	func() {
+		defer func() {
+			if r := recover(); r != nil {
+				fmt.Printf("IMPL-VIOLATION tag=passwd-reader-panic {\"panic\":%q}\n", fmt.Sprint(r))
+				ok = false
+			}
+		}()
+		uf, err := passwd.ReadUserFile(fsys, p)
+		if err != nil {
+			ok = false
+			return
+		}
+		for _, e := range uf.Entries {
+			out = append(out, uent{e.UserName, e.Password, e.UID, e.GID, e.Info, e.HomeDir, e.Shell})
+		}
+	}()
+	return "(Some " + galUsers(out, ok) + ")"
+}
+func implGroups(fsys apkfs.FullFS, p string) string {
+	if fi, err := fsys.Stat(p); err != nil || !fi.Mode().IsRegular() {
+		return "None"
+	}
+	var out []gent
+	ok := true
+	func() {
+		defer func() {
+			if r := recover(); r != nil {
+				fmt.Printf("IMPL-VIOLATION tag=group-reader-panic {\"panic\":%q}\n", fmt.Sprint(r))
+				ok = false
+			}
+		}()
+		gf, err := passwd.ReadGroupFile(fsys, p)
+		if err != nil {
+			ok = false
+			return
+		}
+		for _, e := range gf.Entries {
+			out = append(out, gent{e.GroupName, e.Password, e.GID, e.Members})
+		}
+	}()
+	return "(Some " + galGroups(out, ok) + ")"
+}
+
 // ---- accounts stage -----------------------------------------------------------
 
 type cuser struct {
@@ -402,6 +454,7 @@ func specHome(u cuser) string {
 func accCase(w *gal.Writer, backend int, setup []setupOp, users []cuser, groups []cgroup, runAs, note string) {
 	fsys, kept := buildFS(backend, setup)
 	oldP, oldG := readText(fsys, "etc/passwd"), readText(fsys, "etc/group")
+	implOldU, implOldG := implUsers(fsys, "etc/passwd"), implGroups(fsys, "etc/group")
 	// Stat(home) at the time user k is processed: run the real code with the
 	// earlier users only, on a fresh copy of the tree
 	before := make([]sinfo, len(users))
@@ -434,6 +487,10 @@ func accCase(w *gal.Writer, backend int, setup []setupOp, users []cuser, groups 
 	newP, newG := readText(fsys, "etc/passwd"), readText(fsys, "etc/group")
 	nu, oknu := ownUsers(newP)
 	ng, okng := ownGroups(newG)
+	implNewU, implNewG := "None", "None"
+	if err == nil {
+		implNewU, implNewG = implUsers(fsys, "etc/passwd"), implGroups(fsys, "etc/group")
+	}
 	var dump, layer []dentry
 	if err == nil {
 		dump = dumpFS(fsys)
@@ -455,9 +512,10 @@ func accCase(w *gal.Writer, backend int, setup []setupOp, users []cuser, groups 
 	for i, g := range groups {
 		cg[i] = fmt.Sprintf("(mkCG %s %s %s)", gal.Str(g.Name), gal.N(uint64(g.GID)), gal.StrList(g.Members))
 	}
-	term := fmt.Sprintf("{| a_backend := %s; a_setup := %s; a_users := %s; a_groups := %s; a_run_as := %s; ao_err := %s; ao_run_as := %s; ao_passwd := %s; ao_group := %s; ao_old_users := %s; ao_old_groups := %s; ao_users := %s; ao_groups := %s; ao_homes := %s; ao_dump := %s; ao_layer := %s |}",
+	term := fmt.Sprintf("{| a_backend := %s; a_setup := %s; a_users := %s; a_groups := %s; a_run_as := %s; ao_err := %s; ao_run_as := %s; ao_passwd := %s; ao_group := %s; ao_old_users := %s; ao_old_groups := %s; ao_users := %s; ao_groups := %s; ao_impl_old_users := %s; ao_impl_old_groups := %s; ao_impl_users := %s; ao_impl_groups := %s; ao_homes := %s; ao_dump := %s; ao_layer := %s |}",
 		gal.Nat(backend), galSetup(kept), gal.List(cu), gal.List(cg), gal.Str(runAs), gal.Bool(err != nil), gal.Str(ic.Accounts.RunAs),
 		gal.Str(newP), gal.Str(newG), galUsers(ou, okou), galGroups(og, okog), galUsers(nu, oknu), galGroups(ng, okng),
+		implOldU, implOldG, implNewU, implNewG,
 		gal.List(homes), galDump(dump), galDump(layer))
 	es := ""
 	if err != nil {
@@ -530,6 +588,8 @@ func accCorpus(w *gal.Writer) {
 			[]cuser{{Name: "app", UID: 1000}}, []cgroup{{Name: "g", GID: 5}}, "")
 		a("malformed group file but no groups configured", append(withPasswd(stdPasswd), setupOp{Op: "write", Path: "etc/group", Arg: "root:x:0\n", Perm: 0o644}),
 			[]cuser{{Name: "app", UID: 1000}}, nil, "")
+		a("group without members is read back without members (fix 4aa2cd2)", append(withPasswd(stdPasswd), setupOp{Op: "write", Path: "etc/group", Arg: "nobody:x:65534:\nwheel:x:10:root\nodd:x:11:,\n", Perm: 0o644}),
+			nil, []cgroup{{Name: "nomembers", GID: 77}, {Name: "one", GID: 78, Members: []string{"root"}}}, "")
 		a("nothing configured", withPasswd(stdPasswd), nil, nil, "root")
 	}
 }
